@@ -5,6 +5,7 @@ CONSTANTS
   Vals = {0, 1, 2}
   MaxDepth = 40
   Extra = {"g", "h", "k"}
+  DB = TRUE
   Dev = "none"
 CONSTRAINT GenPrint
 CHECK_DEADLOCK FALSE
